@@ -43,6 +43,67 @@ PROPS = {
         assumptions=['object-invariant methodology (induction over the history of public calls)'],
         trusted_base=[],
     ),
+    'C04': dict(
+        level='proof',
+        text='representation invariant WF of the tokenizer and a relational step specification are proved for the real '
+             'Tokenizer.feed_byte from an ARBITRARY well-formed state and an arbitrary byte (out-of-range bytes raise ValueError and '
+             'change nothing); Tokenizer.feed / Parser.feed are proved for byte strings of any length by loop invariants (every '
+             'token appended is one complete well-formed message; every queued object is a valid Message, never an exception). '
+             'Lemmas over the step specification give: exactly one real-time message per defined real-time byte, in order, and '
+             'the kept bytes form a subsequence of the input (Sublist axioms checked by Lean+Mathlib).',
+        note='trusted: pyvc, z3/cvc5, Lean kernel; MIDI 1.0 spec in contracts/spec_midi.py; the induction over the input that '
+             'lifts the per-step lemmas to whole streams is the standard one and is not mechanised; Parser.feed uses the proved '
+             'summary of Tokenizer.feed at the call site (abstract token queue)',
+        clauses=[
+            ['feed_byte from any WF state: WF preserved, <=1 token, token well-formed, step relation', 'P'],
+            ['Tokenizer.feed / Parser.feed over any byte string: never raise, every queued message valid', 'P'],
+            ['one real-time message per defined real-time byte, in order (step lemma)', 'P'],
+            ['bytes of other messages form a subsequence of the input (step lemma + Sublist axioms in Lean)', 'P'],
+            ['lifting step lemmas to whole streams (induction on the input)', 'assumed meta-theorem'],
+        ],
+        assumptions=['induction over the input stream lifting per-step lemmas (not mechanised)',
+                     'correspondence between the z3 Sublist axioms and the Lean statements A0..A3 (by inspection)'],
+        trusted_base=['Lean 4 + Mathlib (list theory A0..A3)'],
+        external=[dict(name='lean:ListTheory', cmd=['lean', 'lean/ListTheory.lean'], solver='lean',
+                       obligations=['A0', 'A1', 'A2', 'A3'], timeout=900)],
+    ),
+    'C05': dict(
+        level='proof',
+        text='chunking: Tokenizer.feed(data) is proved to perform exactly the calls feed_byte(data[0..n-1]) in order and to write '
+             'nothing itself, and feed_byte/Parser.feed_byte are proved from arbitrary states, so any split of the stream performs '
+             'the same steps on the same state. Retrieval: get_message returns the oldest queued item and removes exactly it, or '
+             'None exactly when nothing is pending; pending() is the queue length; iteration yields the queue in order '
+             '(invariant yielded ++ remaining == queue) - all for queues of ANY length. ParserQueue: put_bytes/poll/iterpoll proved '
+             'against an assumed FIFO contract of queue.Queue.',
+        note='trusted: pyvc, z3/cvc5; queue.Queue assumed FIFO; queue items are represented by integers because retrieval only '
+             'moves them (any inspection would surface as a failing obligation); the step from "same sequence of steps" to '
+             '"same messages" is the determinism of the proved step function',
+        clauses=[
+            ['feed(data) == fold of feed_byte over data, no writes of its own', 'P'],
+            ['Parser.feed_byte / feed keep the tokenizer queue drained and only append to the message queue', 'P'],
+            ['get_message / pending / __iter__ on a queue of any length: FIFO, None iff empty', 'P'],
+            ['ParserQueue.put_bytes / poll / iterpoll', 'PA (queue.Queue FIFO)'],
+        ],
+        assumptions=['queue.Queue is FIFO (ParserQueue clause)', 'parametricity of the retrieval functions in the queued items'],
+        trusted_base=[],
+    ),
+    'C06': dict(
+        level='proof',
+        text='resynchronisation is proved on the real code from ANY well-formed parser state (that is: after any prefix): '
+             'feeding the encoding of a valid non-sysex message of each of the 17 types queues exactly that message and leaves '
+             'no partial message; for sysex, Tokenizer.feed over F0 ++ y ++ F7 with y any mix of data and real-time bytes of any '
+             'length is proved by a loop invariant (payload = data bytes of y in order, each defined real-time byte delivered at '
+             'once and ahead of the sysex, the final token is F0 payload F7).',
+        note='trusted: pyvc, z3/cvc5; concatenation corollary follows by induction over the message list from resynchronisation '
+             '(not mechanised); the sysex clause is stated at token level, decoding of the token is covered by C01/C02',
+        clauses=[
+            ['any WF state + enc(M) for the 17 fixed-length types => exactly M queued, no partial left', 'P'],
+            ['sysex with inserted real-time bytes, any length', 'P'],
+            ['concatenation of encoded messages parses back (induction over the list)', 'assumed meta-theorem'],
+        ],
+        assumptions=['induction over the message list for the concatenation corollary'],
+        trusted_base=[],
+    ),
     'C02': dict(
         level='proof',
         text='Message.from_bytes / decode_message are verified against the MIDI 1.0 well-formedness predicate for integer '
@@ -63,5 +124,5 @@ PROPS = {
 }
 
 NOT_APPLICABLE = {pid: _PENDING for pid in
-                  ['C04', 'C05', 'C06', 'C07', 'C08', 'C09', 'C10', 'C11', 'C12', 'C13', 'C14', 'C15',
+                  ['C07', 'C08', 'C09', 'C10', 'C11', 'C12', 'C13', 'C14', 'C15',
                    'C16', 'C17', 'C18', 'C19', 'C20']}
